@@ -92,6 +92,41 @@ Proof.
            end; eauto; try (split; [discriminate|reflexivity]).
 Qed.
 
+
+(* unfolding equations of the specification's statement walk *)
+Section VS.
+Variable o : options.
+Lemma vs_SExpr c e : v_stmt o c (SExpr e) = v_expr c e. Proof. reflexivity. Qed.
+Lemma vs_SBranch c n : v_stmt o c (SBranch n) = when (negb (c_loop c)) RBranchNotInLoop n. Proof. reflexivity. Qed.
+Lemma vs_SIf c n cnd t f :
+  v_stmt o c (SIf n cnd t f) =
+  toplevel_gate o c RIfToplevel n ++ v_expr c cnd ++ v_stmts o (in_if c) t ++ v_stmts o (in_if c) f.
+Proof. reflexivity. Qed.
+Lemma vs_SAssign c aug l e : v_stmt o c (SAssign aug l e) = v_expr c e ++ v_lhs c aug l. Proof. reflexivity. Qed.
+Lemma vs_SDef c n nn x ps body :
+  v_stmt o c (SDef n nn x ps body) = v_defaults c ps ++ v_params [] ps ++ bare_star ps ++ v_stmts o (in_body c) body.
+Proof. reflexivity. Qed.
+Lemma vs_SFor c n vars iter body :
+  v_stmt o c (SFor n vars iter body) =
+  toplevel_gate o c RForToplevel n ++ v_expr c iter ++ v_lhs c false vars ++ v_stmts o (in_loop c) body.
+Proof. reflexivity. Qed.
+Lemma vs_SWhile c n cnd body :
+  v_stmt o c (SWhile n cnd body) =
+  when (negb (o_while o)) RWhileUnsupported n ++ toplevel_gate o c RWhileToplevel n ++ v_expr c cnd ++ v_stmts o (in_loop c) body.
+Proof. reflexivity. Qed.
+Lemma vs_SReturn c n e :
+  v_stmt o c (SReturn n e) =
+  when (negb (c_fn c)) RReturnToplevel n ++ match e with Some e => v_expr c e | None => [] end.
+Proof. reflexivity. Qed.
+Lemma vs_SLoad c n items :
+  v_stmt o c (SLoad n items) =
+  (if c_fn c then [(RLoadInFunction, n)] else if c_loop c then [(RLoadInLoop, n)] else when (c_if c) RLoadInConditional n)
+  ++ flat_map (fun it => match it with (fn, from, _, _) => when (underscore from) RLoadUnderscore fn end) items.
+Proof. reflexivity. Qed.
+Lemma vs_SNil c : v_stmts o c SNil = []. Proof. reflexivity. Qed.
+Lemma vs_SCons c s r : v_stmts o c (SCons s r) = v_stmt o c s ++ v_stmts o c r. Proof. reflexivity. Qed.
+End VS.
+
 (* the gated part of the specification's violations, for every context *)
 Lemma gated_viol o :
   (forall s c r n, gated r = true ->
@@ -114,16 +149,16 @@ Proof.
   { intros ps r n Hg Hin. apply (In_fg r n _ Hg) in Hin. destruct (FP ps) as [_ [Hp _]]. rewrite Hp in Hin. exact Hin. }
   assert (NB : forall ps r n, gated r = true -> ~ In (r, n) (bare_star ps)).
   { intros ps r n Hg Hin. apply (In_fg r n _ Hg) in Hin. destruct (FP ps) as [_ [_ Hb]]. rewrite Hb in Hin. exact Hin. }
-  assert (GW : forall b r0 n0 r n, gated r = true -> gated r0 = false -> ~ In (r, n) (when b r0 n0)).
-  { intros b r0 n0 r n Hg H0 Hin. destruct b; simpl in Hin; [|contradiction].
+  assert (GW : forall b r0 n0 r n, gated r = true -> In (r, n) (when b r0 n0) -> gated r0 = false -> False).
+  { intros b r0 n0 r n Hg Hin H0. destruct b; simpl in Hin; [|contradiction].
     destruct Hin as [E|[]]. inversion E; subst. congruence. }
   apply stmt_mutind.
-  - (* SExpr *) intros e c r n Hg. simpl v_stmt. simpl while_sites. simpl control_sites. split; [intro H; exfalso; exact (NE _ _ _ _ Hg H)|].
+  - (* SExpr *) intros e c r n Hg. rewrite vs_SExpr. simpl while_sites. simpl control_sites. split; [intro H; exfalso; exact (NE _ _ _ _ Hg H)|].
     intros [[_ [_ []]]|[_ [_ [_ []]]]].
-  - (* SBranch *) intros n0 c r n Hg. simpl v_stmt. simpl while_sites. simpl control_sites. split; [intro H; exfalso; exact (GW _ _ _ _ _ Hg eq_refl H)|].
+  - (* SBranch *) intros n0 c r n Hg. rewrite vs_SBranch. simpl while_sites. simpl control_sites. split; [intro H; exfalso; exact (GW _ _ _ _ _ Hg H eq_refl)|].
     intros [[_ [_ []]]|[_ [_ [_ []]]]].
   - (* SIf *)
-    intros n0 cnd t IHt f IHf c r n Hg. simpl v_stmt. simpl while_sites. simpl control_sites.
+    intros n0 cnd t IHt f IHf c r n Hg. rewrite vs_SIf. simpl while_sites. simpl control_sites.
     rewrite !in_app_iff. rewrite (IHt (in_if c) r n Hg), (IHf (in_if c) r n Hg). simpl c_fn.
     unfold toplevel_gate, when.
     split.
@@ -142,18 +177,18 @@ Proof.
       * destruct H4 as [E|H4].
         -- inversion E; subst. left. rewrite H2, H3. simpl. left; reflexivity.
         -- apply in_app_or in H4. destruct H4 as [H4|H4]; [right; right; left|right; right; right]; right; auto.
-  - (* SAssign *) intros aug l e c r n Hg. simpl v_stmt. simpl while_sites. simpl control_sites. rewrite in_app_iff.
+  - (* SAssign *) intros aug l e c r n Hg. rewrite vs_SAssign. simpl while_sites. simpl control_sites. rewrite in_app_iff.
     split; [intros [H|H]; exfalso; [exact (NE _ _ _ _ Hg H)|exact (NL _ _ _ _ _ Hg H)]|].
     intros [[_ [_ []]]|[_ [_ [_ []]]]].
   - (* SDef *)
-    intros n0 nn x ps body IHb c r n Hg. simpl v_stmt. simpl while_sites. simpl control_sites.
+    intros n0 nn x ps body IHb c r n Hg. rewrite vs_SDef. simpl while_sites. simpl control_sites.
     rewrite !in_app_iff. rewrite (IHb (in_body c) r n Hg). simpl c_fn.
     split.
     + intros [H|[H|[H|H]]]; try (exfalso; first [exact (ND _ _ _ _ Hg H)|exact (NP _ _ _ Hg H)|exact (NB _ _ _ Hg H)]).
       destruct H as [[H1 [H2 H3]]|[H1 [H2 [H3 H4]]]]; [left; auto|discriminate].
     + intros [[H1 [H2 H3]]|[H1 [H2 [H3 []]]]]. right; right; right. left; auto.
   - (* SFor *)
-    intros n0 vars iter body IHb c r n Hg. simpl v_stmt. simpl while_sites. simpl control_sites.
+    intros n0 vars iter body IHb c r n Hg. rewrite vs_SFor. simpl while_sites. simpl control_sites.
     rewrite !in_app_iff. rewrite (IHb (in_loop c) r n Hg). simpl c_fn.
     unfold toplevel_gate, when.
     split.
@@ -172,7 +207,7 @@ Proof.
         -- inversion E; subst. left. rewrite H2, H3. simpl. left; reflexivity.
         -- right; right; right. right; auto.
   - (* SWhile *)
-    intros n0 cnd body IHb c r n Hg. simpl v_stmt. simpl while_sites. simpl control_sites.
+    intros n0 cnd body IHb c r n Hg. rewrite vs_SWhile. simpl while_sites. simpl control_sites.
     rewrite !in_app_iff. rewrite (IHb (in_loop c) r n Hg). simpl c_fn.
     unfold toplevel_gate, when.
     split.
@@ -195,22 +230,22 @@ Proof.
       * destruct H4 as [E|H4].
         -- inversion E; subst. right; left. rewrite H2, H3. simpl. left; reflexivity.
         -- right; right; right. right; auto.
-  - (* SReturn *) intros n0 e c r n Hg. simpl v_stmt. simpl while_sites. simpl control_sites. rewrite in_app_iff.
+  - (* SReturn *) intros n0 e c r n Hg. rewrite vs_SReturn. simpl while_sites. simpl control_sites. rewrite in_app_iff.
     split.
-    + intros [H|H]; [exfalso; exact (GW _ _ _ _ _ Hg eq_refl H)|]. destruct e; [exfalso; exact (NE _ _ _ _ Hg H)|contradiction].
+    + intros [H|H]; [exfalso; exact (GW _ _ _ _ _ Hg H eq_refl)|]. destruct e; [exfalso; exact (NE _ _ _ _ Hg H)|contradiction].
     + intros [[_ [_ []]]|[_ [_ [_ []]]]].
-  - (* SLoad *) intros n0 items c r n Hg. simpl v_stmt. simpl while_sites. simpl control_sites. rewrite in_app_iff.
+  - (* SLoad *) intros n0 items c r n Hg. rewrite vs_SLoad. simpl while_sites. simpl control_sites. rewrite in_app_iff.
     split.
     + intros [H|H].
       * destruct (c_fn c); [destruct H as [E|[]]; inversion E; subst; discriminate|].
         destruct (c_loop c); [destruct H as [E|[]]; inversion E; subst; discriminate|].
-        exfalso; exact (GW _ _ _ _ _ Hg eq_refl H).
+        exfalso; exact (GW _ _ _ _ _ Hg H eq_refl).
       * exfalso. induction items as [|[[[fn from] tn] to] items IH]; simpl in H; auto.
-        apply in_app_or in H. destruct H as [H|H]; auto. exact (GW _ _ _ _ _ Hg eq_refl H).
+        apply in_app_or in H. destruct H as [H|H]; auto. exact (GW _ _ _ _ _ Hg H eq_refl).
     + intros [[_ [_ []]]|[_ [_ [_ []]]]].
-  - (* SNil *) intros c r n Hg. simpl v_stmts. simpl whiles_in. simpl controls_in. split; [contradiction|]. intros [[_ [_ []]]|[_ [_ [_ []]]]].
+  - (* SNil *) intros c r n Hg. rewrite vs_SNil. simpl whiles_in. simpl controls_in. split; [contradiction|]. intros [[_ [_ []]]|[_ [_ [_ []]]]].
   - (* SCons *)
-    intros s IHs ss IHss c r n Hg. simpl v_stmts. simpl whiles_in. simpl controls_in. rewrite !in_app_iff. rewrite (IHs c r n Hg), (IHss c r n Hg).
+    intros s IHs ss IHss c r n Hg. rewrite vs_SCons. simpl whiles_in. simpl controls_in. rewrite !in_app_iff. rewrite (IHs c r n Hg), (IHss c r n Hg).
     split.
     + intros [[[H1 [H2 H3]]|[H1 [H2 [H3 H4]]]]|[[H1 [H2 H3]]|[H1 [H2 [H3 H4]]]]]; [left|right|left|right]; repeat split; auto.
     + intros [[H1 [H2 [H3|H3]]]|[H1 [H2 [H3 [H4|H4]]]]]; [left; left|right; left|left; right|right; right]; repeat split; auto.
@@ -247,7 +282,10 @@ Lemma options_independent_lemma :
 Proof.
   intros o1 o2 p Hw Ht. unfold viol. generalize top.
   assert (G : (forall s c, v_stmt o1 c s = v_stmt o2 c s) /\ (forall ss c, v_stmts o1 c ss = v_stmts o2 c ss)).
-  { apply stmt_mutind; intros; simpl; unfold toplevel_gate; rewrite ?Hw, ?Ht;
+  { apply stmt_mutind; intros;
+      rewrite ?vs_SExpr, ?vs_SBranch, ?vs_SIf, ?vs_SAssign, ?vs_SDef, ?vs_SFor, ?vs_SWhile, ?vs_SReturn,
+              ?vs_SLoad, ?vs_SNil, ?vs_SCons;
+      unfold toplevel_gate; rewrite ?Hw, ?Ht;
       repeat match goal with H : forall c, _ = _ |- _ => rewrite H; clear H end; reflexivity. }
   apply G.
 Qed.
